@@ -75,7 +75,7 @@ def rule_range(facts):
             if not ok:
                 r.violate(vf.id, "validate_value", f"Partitions::validate_value accepts values outside a finite range starting at 1 (derived bounds {vbounds})", vrec["file"], vrec["line"])
     found = 0
-    for rec in facts.all_fns(["glaredb_core"]):
+    for rec in facts.all_fns(["glaredb_core"], contains="SessionConfig"):
         if "SessionConfig" not in str(rec["locals"]):
             continue
         fn = Fn(rec)
@@ -115,7 +115,7 @@ BARRIERS = ("DelayedPartitionCount::set", "PartitionWakers::init_for_partitions"
 
 def rule_count(facts):
     r = RuleResult("C03-COUNT", "partition barriers are initialised with the `partitions` parameter by pure copy", floor=15)
-    for rec in facts.all_fns(["glaredb_core", "glaredb_ext_parquet", "glaredb_ext_csv"]):
+    for rec in facts.all_fns(["glaredb_core", "glaredb_ext_parquet", "glaredb_ext_csv"], contains=("create_partition_", "prepare_for_partitions")):
         if not re.search(r"::(create_partition_\w+|prepare_for_partitions)(::\{closure#\d+\})*$", rec["id"]):
             continue
         if not any(bn.split("::")[-1] in str(rec["bbs"]) for bn in BARRIERS) and "remaining_inputs" not in str(rec["bbs"]):
